@@ -347,6 +347,10 @@ pub fn run(ctx: &Ctx) {
             }
         }
         junks.push(b"-- log rotated --\r\n".to_vec());
+        // the serial-header pattern and other four-byte look-alikes of the storage pattern
+        for j in [&b"DLS\x01"[..], b"xDLS\x01yy", b"DLS\x01DLS\x01", b"DLS\x01\x20\x00\x00\x08\x01\x02\x03\x04", b"DLT\x02", b"DLU\x01", b"dlt\x01", b"DLT\x00DLT"] {
+            junks.push(j.to_vec());
+        }
         junks.push(vec![0x20, 0x00, 0x00, 0x08, 1, 2, 3, 4]);
         junks.push(vec![0x20, 0x00, 0x00, 0x04]);
         let structured = junks.len() - plain_junk_from;
